@@ -147,11 +147,12 @@ pub fn history(seed: u64, idx: u64) -> Case {
     let drop_by_unwinding = rng.chance(1, 3);
     // the wrapper's own runtime (where it sends its blocking work); the tasks are always polled by tokio
     let runtime = if rng.chance(1, 3) { deadpool::Runtime::AsyncStd1 } else { deadpool::Runtime::Tokio1 };
-    let desc_script = format!("runtime={:?} max_blocking_threads={} ops={:?} release_gates_before_drop={} dropped_by_unwinding={}", runtime, mb, ops, release_before_drop, drop_by_unwinding);
+    let workers = if rng.chance(1, 3) { 1 } else { 2 };
+    let desc_script = format!("runtime={:?} workers={} max_blocking_threads={} ops={:?} release_gates_before_drop={} dropped_by_unwinding={}", runtime, workers, mb, ops, release_before_drop, drop_by_unwinding);
     let log = Arc::new(Log::default());
     let mut viol: Vec<Violation> = Vec::new();
     let mut v = |oracle: &'static str, msg: String| viol.push(Violation { prop: "C14", oracle, msg });
-    let rt = tokio::runtime::Builder::new_multi_thread().worker_threads(2).max_blocking_threads(mb).enable_time().build().expect("runtime");
+    let rt = tokio::runtime::Builder::new_multi_thread().worker_threads(workers).max_blocking_threads(mb).enable_time().build().expect("runtime");
     let results: Arc<Mutex<Vec<String>>> = Arc::new(Mutex::new(Vec::new()));
     let dropper: Arc<Mutex<Option<ThreadId>>> = Arc::new(Mutex::new(None));
     let harness_notes: Arc<Mutex<Vec<String>>> = Arc::new(Mutex::new(Vec::new()));
@@ -315,10 +316,38 @@ pub fn history(seed: u64, idx: u64) -> Case {
                         tokio::time::sleep(Duration::from_micros(200)).await;
                     }
                     Op::BlockInPlace => {
-                        tokio::task::block_in_place(|| std::thread::sleep(Duration::from_micros(300)));
-                        // let the tasks that follow be picked up by whichever thread is a worker now
+                        // parked closures occupy the blocking pool, and block_in_place needs a thread of that pool
+                        // to take over the worker: let them finish first
+                        for g in &gates {
+                            g.release();
+                        }
+                        // give the blocking threads the time to go idle, so that tokio reuses one of them
+                        tokio::time::sleep(Duration::from_millis(2)).await;
+                        tokio::task::block_in_place(|| std::thread::sleep(Duration::from_millis(3)));
+                        // the rest of this poll still runs on the old thread; after the next suspension the task is
+                        // picked up by whichever thread is a worker now
                         tokio::task::yield_now().await;
                         log.note_async();
+                        // a second, healthy wrapper used from here (the first one may be poisoned by now, its
+                        // closures would not even start)
+                        let l2 = log.clone();
+                        let probe = SyncWrapper::new(runtime, move || {
+                            l2.push(Ev::Ctor { thread: std::thread::current().id(), blocking_ok: blocking_allowed() });
+                            Ok::<_, ()>(0u8)
+                        })
+                        .await;
+                        log.note_async();
+                        if let Ok(probe) = probe {
+                            let l = log.clone();
+                            let _ = probe
+                                .interact(move |_| {
+                                    let seq = l.next();
+                                    l.push(Ev::Begin { op: i, thread: std::thread::current().id(), seq, blocking_ok: blocking_allowed() });
+                                    let _g = EndGuard { log: l.clone(), op: i };
+                                })
+                                .await;
+                            log.note_async();
+                        }
                     }
                 }
             }
@@ -414,7 +443,7 @@ pub fn history(seed: u64, idx: u64) -> Case {
                 }
                 // a later Complete / Panic operation opens all gates: only closures after the last
                 // such operation are still parked when the wrapper is dropped
-                let last_release = ops.iter().rposition(|o| matches!(o, Op::Complete | Op::Panic));
+                let last_release = ops.iter().rposition(|o| matches!(o, Op::Complete | Op::Panic | Op::BlockInPlace));
                 if last_release.map(|l| *op < l).unwrap_or(false) {
                     continue;
                 }
